@@ -522,7 +522,7 @@ def arith(op: str, a: Term, b: Term) -> Term:
                       "lshift": lambda x, y: x << y, "rshift": lambda x, y: x >> y, "pow": lambda x, y: x ** y}[op](a[1], b[1]))
         except Exception:  # noqa: BLE001
             return app(op, [a, b])
-    lin_ok = lambda v: v[0] in ("c", "lin", "sym", "len", "uint", "app", "dec", "eattr", "attr", "item")  # noqa: E731
+    lin_ok = lambda v: v[0] in ("c", "lin", "sym", "len", "uint", "app", "dec", "eattr", "attr", "item", "elemof")  # noqa: E731
     if op in ("add", "sub") and lin_ok(a) and lin_ok(b) and not _is_datetime_like(a) and not _is_datetime_like(b):
         la, lb = Lin.of(a), Lin.of(b)
         return (la + lb).term() if op == "add" else (la - lb).term()
@@ -546,6 +546,8 @@ def arith(op: str, a: Term, b: Term) -> Term:
 def _is_datetime_like(v: Term) -> bool:
     if v[0] != "app":
         return False
+    if v[1] in (".weekday", ".isoweekday", ".toordinal", ".timestamp", ".total_seconds", "time.time", "time.mktime"):
+        return False  # plain numbers
     return str(v[1]).startswith(("datetime.", "time.", ".")) or v[1] in ("add", "sub") and any(_is_datetime_like(x) for x in v[2:] if isinstance(x, tuple))
 
 
@@ -625,6 +627,29 @@ def slice_value(I: Any, base: Term, lo: Optional[Term], hi: Optional[Term], st: 
     if base[0] == "sym" and isinstance(base[2], tuple) and base[2] and base[2][0] == "list" and (l is None or l >= 0) and (h is None or h >= 0):
         return ("slicelist", base, l or 0, h)
     return app("slice", [base, lo or c(None), hi or c(None)])
+
+
+def reverse_value(I: Any, base: Term, st: Any, ctx: Any, node: ast.AST) -> Term:
+    """x[::-1] for byte strings / text of constant width and for concrete lists."""
+    s = T.to_seq(base) if _textlike(base) else None
+    if s is not None:
+        unit = 2 if s[1] == "raw" else 1
+        w = T.const_width(s)
+        if w is None or w % unit:
+            return top("reversal of a sequence of non-constant width")
+        parts = []
+        for k in range(w // unit - 1, -1, -1):
+            piece = T.slice_seq(("seq", "s", s[2]), k * unit, (k + 1) * unit)
+            if is_top(piece):
+                return piece
+            parts.extend(piece[2])
+        return T.seq(s[1], parts)
+    if base[0] == "obj" and st.heap[base[1]].kind == "list" and not st.heap[base[1]].symbolic:
+        from .interp import HeapObj
+        return st.alloc(HeapObj("list", None, {}, list(reversed(st.heap[base[1]].items))))
+    if base[0] in ("tuple", "clist"):
+        return (base[0], tuple(reversed(base[1])))
+    return top("reversal of a symbolic collection")
 
 
 def index_value(I: Any, base: Term, idx: Term, st: Any, ctx: Any, node: ast.AST) -> Term:
@@ -1063,7 +1088,10 @@ def call_method(I: Any, recv: Term, name: str, args: List[Term], kwargs: Dict[st
         if name == "items":
             return ("tuple", tuple(("tuple", kv) for kv in recv[1]))
     if recv[0] == "mapobj" and len(recv) == 4 and recv[3] == "list" and name in ("sort", "reverse"):
-        return c(None)  # in-place reordering: membership (all these rules use) is unchanged
+        # in-place reordering: membership is unchanged; the call is recorded so that rules can require it
+        from .interp import Event
+        st.events.append(Event("reorder", name, (recv,) + tuple(args), tuple(sorted(kwargs.items())), where, ctx.fi.key if ctx.fi else "", pc_len=len(st.pc)))
+        return c(None)
     if recv[0] in ("map", "mapobj", "filterobj", "chunks"):
         return app("." + name, [recv] + args)
     return I.external_call(f"{T.show(recv)}.{name}", args, kwargs, st, ctx, node, awaited)
